@@ -101,6 +101,8 @@ def run(ctx):
                     if multi:
                         ctx.nontrivial(("perm", i, hashlib.sha1(" ".join(order).encode()).hexdigest()[:8]))
                 vh.call(op="drop_db", db=db)
+            if i % 3 == 0:
+                tier_permutations(ctx, vh, i, K)
             ctx.sample({"workspace": ws.spec, "orders": K, "sensitive_names": sorted(sens)})
             ctx.count("workspaces")
             if i < n_proc_ws:
@@ -113,6 +115,39 @@ def run(ctx):
     finally:
         vh.close()
     ctx.extra["distinct_snapshots_seen"] = len(snaps_seen)
+
+
+def tier_permutations(ctx, vh, i, K):
+    """registration orders across the plugin / third-party tiers: the files of a venv (entry-point plugins inside the
+    workspace and in site-packages, pytest's own package) are registered before, between and after the workspace files"""
+    root = ctx.scratch(f"tv{i}")
+    ws = gen.gen_workspace(root, ctx.rng, venv=True, allow_imports=False, depth=ctx.rng.randint(1, 3))
+    materialize(ws)
+    files = sorted(ws.workspace_py())
+    venv_py = sorted(r for r in ws.files if r.endswith(".py") and r not in files)
+    allf = files + venv_py
+    base, sens, multi = None, set(), set()
+    for k in range(K):
+        order = list(allf)
+        if k > 0:
+            ctx.rng.shuffle(order)
+        db = vh.new_db()
+        for r in ws.plugin_rel:
+            vh.call(op="mark_plugin", db=db, path=ws.abs(r))
+        res = vh.call(op="batch", cmds=[{"op": "analyze_fresh", "db": db, "path": ws.abs(r), "text": ws.files[r]} for r in order])["results"]
+        if any("panic" in r for r in res):
+            raise Inconclusive("analysis panicked")
+        q = keyed_queries(vh.call(op="queries", db=db, files=[ws.abs(r) for r in files]))
+        if k == 0:
+            base = q
+            sens, multi = sensitive_names(ws, vh.call(op="raw", db=db))
+        else:
+            ctx.judged()
+            judge(ctx, ws, base, q, sens, multi, ("tier-permutation", order), root)
+            ctx.nontrivial(("tierperm", i, hashlib.sha1(" ".join(order).encode()).hexdigest()[:8]))
+        vh.call(op="drop_db", db=db)
+    ctx.count("tier_workspaces")
+    shutil.rmtree(root, ignore_errors=True)
 
 
 def processes(ctx, ws, sens0, multi0):
